@@ -395,6 +395,13 @@ def main():
     # the output file against the writer model applied to the graph captured right before serialisation
     w_owners = [o for o in owners if "wdesc" in o]
     w_answers = ck.model([x for o in w_owners for x in ("wwrite " + o["wdesc"] + " " + o["wtree"], "wspec " + o["wdesc"] + " " + o["wtree"])])
+    loop_answers = ck.model(["wloop " + o["wdesc"] for o in w_owners])
+    for o, a in zip(w_owners, loop_answers):
+        ck.count("wpipe_loop_" + ":".join(a.split(" ")[0].split(":")[:2]))
+        if (a.startswith("differ") or a.startswith("err:rewrite")) and ck.counters.get("wpipe_loop_reported", 0) < 3:
+            ck.count("wpipe_loop_reported")
+            ck.violation(f"read_write_roundtrip fails on the models for the graph of network {o['idx']} {o['profile']}: {a[:200]}",
+                         dict(replay_of(o), answer=a), found_input=False)
     for o in owners:
         if "wdesc_error" in o:
             ck.count("wpipe_undescribable")
